@@ -384,8 +384,47 @@ func c16Fields(c *Ctx) {
 	}
 }
 
+// c16Implicit: a method that claims, with kind "*", the implicit /Service/Method path of another
+// method of its service. Whichever is declared first, the conflict is an error, not a panic, and
+// nothing of the service stays registered.
+func c16Implicit(c *Ctx) {
+	echo := func(ctx context.Context, in *dynamicpb.Message) (proto.Message, error) {
+		return dynamicpb.NewMessage(in.Descriptor().ParentFile().Messages().ByName("Reply")), nil
+	}
+	for _, claimFirst := range []bool{true, false} {
+		for _, kind := range []string{"*", "POST"} {
+			a := &MethodSpec{Service: "Imp", Name: "A", In: "Req", Out: "Reply", Unary: echo, Rule: customRule(kind, "/verif.v1.Imp/B", "*")}
+			b := &MethodSpec{Service: "Imp", Name: "B", In: "Req", Out: "Reply", Unary: echo}
+			ms := []*MethodSpec{a, b}
+			if !claimFirst {
+				ms = []*MethodSpec{b, a}
+			}
+			fixtureDeferRegistration = true
+			fx, err := NewFixture(ms, nil)
+			fixtureDeferRegistration = false
+			if err != nil {
+				c.Note("c16 implicit fixture: " + err.Error())
+				continue
+			}
+			fpBefore := fx.Mux.VerifSnapshot().Fingerprint()
+			err2, pn := fx.RegisterOne("Imp")
+			in := fmt.Sprintf("method A binds custom kind %q on /verif.v1.Imp/B, the implicit path of method B; A declared first=%v", kind, claimFirst)
+			c.Eval("api-implicit", in, true)
+			switch {
+			case pn != nil:
+				c.SpecFail("api-implicit", in, fmt.Sprint("panic: ", pn), "an error or an accepted registration", "C16/api/panic/implicit-path-claimed", "a binding that conflicts with another method's implicit binding panics instead of being rejected")
+			case err2 != nil && fx.Mux.VerifSnapshot().Fingerprint() != fpBefore:
+				c.SpecFail("api-implicit", in, "routes changed", "previous state intact", "C16/api/routes-changed", "a rejected registration changed the published state")
+			case err2 == nil && kind == "*":
+				c.SpecFail("api-implicit", in, "accepted", "an error (two methods on one kind and path)", "C16/api/accepted/implicit-path-claimed", "a binding that conflicts with another method's implicit binding is accepted")
+			}
+		}
+	}
+}
+
 func c16API(c *Ctx) {
 	c16Fields(c)
+	c16Implicit(c)
 	echo := func(ctx context.Context, in *dynamicpb.Message) (proto.Message, error) {
 		return dynamicpb.NewMessage(in.Descriptor().ParentFile().Messages().ByName("Reply")), nil
 	}
@@ -404,6 +443,8 @@ func c16API(c *Ctx) {
 			return r
 		}()},
 		{"conflict", getRule("/c16/{name}/one")},
+		{"nil-custom-pattern", &annotations.HttpRule{Pattern: &annotations.HttpRule_Custom{}}},
+		{"no-pattern", &annotations.HttpRule{Body: "*"}},
 		{"nested-additional", func() *annotations.HttpRule {
 			r := getRule("/c16/{name}/late3")
 			r.AdditionalBindings = []*annotations.HttpRule{{Pattern: &annotations.HttpRule_Get{Get: "/c16/n"}, AdditionalBindings: []*annotations.HttpRule{getRule("/c16/nn")}}}
